@@ -19,7 +19,7 @@ func init() {
 			"(4) length-prefix acceptance — a decoded string length may be rejected only against the caller's limit or the delivered byte count, never against a constant that excludes 0 (the empty string is a legal value); (5) errors of the underlying read are never swallowed: on the path where the read failed the decoder returns that error (fixed-width decoders with the zero value); (6) ReWrite copies with the builtin copy into the existing unread region (cannot grow or shift it). " +
 			"NOT decided: panics for an invalid ReWrite position, int(uint32) on 32-bit platforms, allocation size for hostile lengths, full round-trip equality over all value sequences (follows from encoding/binary's own round trip plus these pairings).",
 		Assumptions: []string{"encoding/binary and math.Float64bits round-trip", "io.ReadFull's contract"},
-		Floors:      map[string]int{"C10.codec-pair": 14, "C10.sibling": 10, "C10.short-read": 3, "C10.length-prefix": 4, "C10.error-not-swallowed": 20, "C10.rewrite": 1},
+		Floors:      map[string]int{"C10.codec-pair": 22, "C10.sibling": 10, "C10.short-read": 3, "C10.length-prefix": 4, "C10.error-not-swallowed": 20, "C10.rewrite": 1},
 		Run:         runC10,
 	})
 }
@@ -231,6 +231,38 @@ func runC10(c *Ctx) {
 	}
 	// bool: writer writes 1/0, reader tests != 0 ; string: length = len(val), exactly that many bytes
 	c.checkBoolString(cfg)
+	// varint writers: the scratch slice handed to PutUvarint / PutVarint holds the longest encoding of the value's
+	// type (10 bytes for 64-bit values, 5 for values widened from 32 bits) — PutVarint panics beyond the slice
+	for _, name := range []string{"WriteVarU64", "WriteVarI64", "WriteVarU32", "WriteVarI32"} {
+		fn := c.mustFn(rel, "(*BufferX)."+name)
+		if fn == nil {
+			continue
+		}
+		traces, _ := c.Trace(fn, cfg)
+		ok, n := true, 0
+		for _, t := range traces {
+			for i, e := range t.Events {
+				if e.Kind != EvCall || (e.callName() != "encoding/binary.PutUvarint" && e.callName() != "encoding/binary.PutVarint") || len(e.Args) < 2 {
+					continue
+				}
+				n++
+				need := int64(10)
+				if v := e.Args[1]; v.Kind == KConv && v.Name == "convert" && v.Args[0].Typ != nil {
+					if b, isB := v.Args[0].Typ.Underlying().(*types.Basic); isB && (b.Kind() == types.Uint32 || b.Kind() == types.Int32) {
+						need = 5
+					}
+				}
+				have := sliceLen(e.Args[0])
+				if (have < 0 || have < need) && ok {
+					ok = false
+					c.violated("C10.codec-pair", "BufferX "+name+" scratch", e.Pos, fmt.Sprintf("the scratch slice handed to %s has %d bytes but the longest encoding of the value needs %d: the writer panics for large values (index out of range) and nothing is written", e.callName(), have, need), c.witness(t, i)...)
+				}
+			}
+		}
+		if ok {
+			c.check(n > 0, "C10.codec-pair", "BufferX "+name+" scratch", fn.Pos(), "scratch >= longest encoding", name+" does not encode through binary.PutUvarint/PutVarint")
+		}
+	}
 
 	// (2) siblings: ReaderX decoders vs BufferX decoders
 	for _, name := range []string{"ReadU16", "ReadI16", "ReadU32", "ReadI32", "ReadU64", "ReadI64", "ReadF64", "ReadBool", "ReadString", "ReadLimitString"} {
